@@ -284,7 +284,8 @@ pub fn random_input(rng: &mut Rng, sh: Sh) -> Vec<f32> {
 
 /// A network in which (nearly) every layer input has the same element count, so that skip and
 /// loop connections between many index pairs are well-formed.
-/// kind 0: flat (dense) chain, 1: spatial chain, 2: mixed flat/spatial chain on r*r elements.
+/// kind 0: flat (dense) chain, 1: spatial chain, 2: mixed flat/spatial chain on r*r elements,
+/// 3: spatial chain whose layer shapes differ while the element counts agree.
 pub fn chain(rng: &mut Rng, kind: usize, depth: usize, acts: &[Act], allow_pool: bool, end_dense: bool) -> NetCfg {
     let mut layers = Vec::new();
     let same_conv = |rng: &mut Rng, c: usize| {
@@ -346,6 +347,27 @@ pub fn chain(rng: &mut Rng, kind: usize, depth: usize, acts: &[Act], allow_pool:
                     }
                 }
                 i += 1;
+            }
+        }
+        3 => {
+            // spatial layers whose shapes differ but whose element counts agree:
+            // (c,h,w) -conv k2 s2, 4c filters-> (4c,h/2,w/2) -deconv k2 s2, c filters-> (c,h,w)
+            let (c, h, w) = (rng.range(1, 2), 2 * rng.range(1, 2), 2 * rng.range(1, 2));
+            input = Sh::Sp(c, h, w);
+            let mut small = false;
+            for _ in 0..depth {
+                let (cc, _hh, _ww) = if small { (4 * c, h / 2, w / 2) } else { (c, h, w) };
+                match rng.range(0, 2) {
+                    0 => layers.push(same_conv(rng, cc)),
+                    _ => {
+                        if small {
+                            layers.push(LCfg::Deconv { filters: c, kernel: (2, 2), stride: (2, 2), padding: (0, 0), act: *rng.pick(acts), dropout: None });
+                        } else {
+                            layers.push(LCfg::Conv { filters: 4 * c, kernel: (2, 2), stride: (2, 2), padding: (0, 0), dilation: (1, 1), act: *rng.pick(acts), dropout: None });
+                        }
+                        small = !small;
+                    }
+                }
             }
         }
         _ => {
